@@ -68,6 +68,7 @@ type c22World struct {
 	dir          string // scratch directory of this world (removed after the execution)
 	endedAtEnter int // number of ended jobs when RESIZING was entered
 	handlerErr []string
+	abortAccepted map[int64]bool // jobs in state ABORTED at the moment an abort request was ACCEPTED (returned nil)
 	nextID   int32
 }
 
@@ -245,7 +246,7 @@ func c22Build(sc c22Scenario, x *vsched.X) *c22World {
 	c.Topology = newTopology()
 	c.holder = h
 	w := &c22World{dir: dir, sc: sc, x: x, c: c, h: h, instr: map[string]*ResizeInstruction{}, okFrom: map[string]bool{},
-		instrJ: map[int64]map[string]bool{}, okJ: map[int64]map[string]bool{}, seenJobs: map[int64]bool{}, reported: map[string]bool{}}
+		instrJ: map[int64]map[string]bool{}, okJ: map[int64]map[string]bool{}, seenJobs: map[int64]bool{}, reported: map[string]bool{}, abortAccepted: map[int64]bool{}}
 	c.broadcaster = w
 	for _, id := range []string{"A", "B"} {
 		n := c22Node(id)
@@ -359,7 +360,17 @@ func TestVerif_C22(t *testing.T) {
 					})
 				}
 				if sc.abort {
-					x.GoID(2, "abort", func() { _ = cl.completeCurrentJob(resizeJobStateAborted) })
+					x.GoID(2, "abort", func() {
+						if err := cl.completeCurrentJob(resizeJobStateAborted); err == nil {
+							// the abort request was ACCEPTED: whichever job it hit is ABORTED for good (setState
+							// never leaves ABORTED) and must not change the member list afterwards
+							for id, j := range cl.jobs {
+								if j.state == resizeJobStateAborted {
+									w.abortAccepted[id] = true
+								}
+							}
+						}
+					})
 				}
 				if sc.rejoin != "" {
 					x.GoID(4, "rejoin("+sc.rejoin+")", func() {
@@ -484,6 +495,9 @@ func TestVerif_C22(t *testing.T) {
 					for n := range w.instrJ[id] {
 						ok = ok && w.okJ[id][n]
 					}
+					// a job whose abort request was accepted has ended ABORTED: it licenses no change, even
+					// if all its holders had reported success before the abort arrived
+					ok = ok && !w.abortAccepted[id]
 					if ok {
 						fully++
 					}
